@@ -1,5 +1,5 @@
 /*UNIT
-{"props": ["C12"], "src": ["lib/log.c"], "mode": "plain", "kind": "bounded", "unwind": 4, "unwindset": ["qb_log_callsite_get2.1:33"],
+{"props": ["C12"], "src": ["lib/log.c"], "mode": "plain", "kind": "bounded", "unwind": 4, "unwindset": ["qb_log_callsite_get2.1:33", "harness.0:33"],
  "bound": "target slot 4 with <= 2 stored filters ('*' and a regex filter, arbitrary priority windows), <= 1 stored tag filter; the scan over the 32 slots is fully unwound",
  "functions": ["qb_log_callsite_get2", "_log_filter_apply_to_cs", "_cs_matches_filter_"],
  "defines": ["-DVERIF_LIST_IDIOM", "-DVERIF_STRCMP_PREFIX2"],
@@ -35,7 +35,13 @@ void harness(void)
 	VERIF_ND(uint32_t, nd_active_max);
 	struct qb_log_filter *f1, *f2, *f3;
 	ASSUME(nd_nstored <= 2 && nd_have_tagflt <= 1);
-	ASSUME(nd_active_max >= 4 && nd_active_max < QB_LOG_TARGET_MAX);     /* slot 4 is (or has been) the highest enabled one or below it */
+	ASSUME(nd_active_max < QB_LOG_TARGET_MAX);
+	ASSUME(V_STATE != QB_LOG_STATE_ENABLED || nd_active_max >= 4);     /* module invariant: an enabled slot is <= conf_active_max */
+	for (int i = 0; i < QB_LOG_TARGET_MAX; i++) {
+		/* as qb_log_init leaves the slots (their empty filter lists are left out: 32 self-pointing list heads in
+		 * the points-to set of every list pointer made the solver run out of memory; an unused slot's list is never walked) */
+		conf[i].pos = (uint32_t)i; conf[i].state = QB_LOG_STATE_UNUSED;
+	}
 	verif_build_slot(4, V_STATE, 0, 1, QB_LOG_MAX_LEN);
 	conf_active_max = nd_active_max;
 	if (nd_nstored >= 1) {
@@ -77,7 +83,7 @@ void harness(void)
 	POST(cs->tags == (nd_tags_arg ? nd_tags_arg : tags0), "an explicit tag of the call replaces the stored one, no tag leaves it");
 #else
 	COVER(m1 && !m2); COVER(!m1 && m2); COVER(!m1 && !m2 && nd_nstored == 2); COVER(nd_nstored == 0);
-	COVER(m3 && nd_tags_arg == 0); COVER(nd_tags_arg != 0 && m3); COVER(nd_active_max == QB_LOG_TARGET_MAX - 1);
+	COVER(m3 && nd_tags_arg == 0); COVER(nd_tags_arg != 0 && m3); COVER(nd_active_max == QB_LOG_TARGET_MAX - 1); COVER(V_STATE == QB_LOG_STATE_ENABLED || nd_active_max < 4);
 	POST(((cs->targets >> 4) & 1u) == (uint32_t)(m1 || m2), "a call site first seen now is selected for the target iff one of the target's stored filters matches it (whether or not the target is enabled yet)");
 	POST((cs->targets & ~(1u << 4)) == 0, "targets without stored filters do not select a new call site");
 	if (nd_tags_arg != 0) {
